@@ -89,7 +89,24 @@ def stage_seq(chk, quick, rng, pid):
         traces.append(sp.replay_sequential(lens, ops, tid))
         info[tid] = {"source": "random", "calls": ops}
         chk.case(("sendrand", i), nontrivial=True)
-    chk.sample({"send_path_calls": info[tid]["calls"][:12]})
+    # a long backlog drained by one write event: a responder that serves a bulk download queues one frame per requested block; when the
+    # transport accepts everything that is pending, all of it must be written (outcome judged; the per-call state is not logged for these)
+    for nfr in (150, 1200) if quick else (150, 999, 1200, 5000):
+        tid += 1
+        run = sp.SendRun([1, 2, 1], tid)
+        exc = ""
+        try:
+            for j in range(nfr):
+                run.send(1 + j % 3)
+            run.can_send([])
+            run.settle()
+        except BaseException as e:      # noqa: B902  (RecursionError is not an Exception subclass issue, but keep every outcome an observation)
+            exc = repr(e)[:120]
+        traces.append({"id": tid, "mode": "seq", "lens": run.real_lens, "sent": run.queued_calls, "events": [], "final": run.final(), "exc": exc,
+                       "feasible": True, "miner": []})
+        info[tid] = {"source": "long backlog", "frames_queued": nfr}
+        chk.case(("sendlong", nfr), nontrivial=True)
+    chk.sample({"send_path_calls": info[tid - 1].get("calls", info[tid - 1])})
     _judge(chk, traces, "C10", info)
     return 0
 
